@@ -5,7 +5,7 @@ Property theorems over the model `LinVerif/Model/RootMerge.lean` (helper lemmas 
 `LinVerif/Lemmas/C12*.lean`). `Variant.code` is lindb as it is (aggregator built from the first
 response's specs; `fieldAggregator.Aggregate` feeds every incoming primitive series into every kind).
 
-The full-strength statement of the property is `partition_invariance` WITHOUT the hypotheses
+The full-strength statement of the property is `partition_invariance_partial` WITHOUT the hypotheses
 `Simple sp0` ("every selected field has one aggregate kind, and it is sum/count/min/max") and
 `LeafIn.OK` ("every answering leaf reports the same field specs"). It is false of the code; the
 four regions those hypotheses exclude each have a proved negation in `namespace Neg`, replayed on
@@ -102,7 +102,7 @@ theorem merge_comm_disjoint (specs : List Spec) (cap : Nat) (c : Cells) (x y : A
 
 /-! ## 2. partition invariance -/
 
-/-- **partition_invariance** (leaves answer the root directly).
+/-- **partition_invariance**, the part that holds (leaves answer the root directly).
 `its` = the per-series grouped results of the whole cluster (what C11 delivers). Take ANY
 placement of them on leaf nodes (`leavesOf ns`, each leaf reducing its share in any order
 `L.its`), ANY number of additional nodes that answer not-found, and ANY delivery order (`ns` is
@@ -110,7 +110,7 @@ the list of nodes in the order their responses are handled — it is universally
 Under the hypothesis the first-response rule forces — all answering leaves report the same field
 specs (up to order) — and for selected fields with one commutative aggregate kind, the root
 completes without error and its aggregator holds exactly the naive aggregate of all data. -/
-theorem partition_invariance (sp0 : List Spec) (cap : Nat) (hs : Simple sp0) (its : List TS)
+theorem partition_invariance_partial (sp0 : List Spec) (cap : Nat) (hs : Simple sp0) (its : List TS)
     (ns : List Node) (hOK : ∀ L ∈ leavesOf ns, L.OK sp0) (hne : leavesOf ns ≠ [])
     (hpart : ((leavesOf ns).flatMap (·.its)).Perm its) :
     let c := (Ctx.new ns.length).handleAll .code (ns.map (Node.resp cap))
@@ -173,13 +173,13 @@ theorem itsFor_nodes (h : Tag → Nat) (r j : Nat) (ns : List Node) :
       have hl : leavesOf (Node.leaf L :: ns) = L :: leavesOf ns := rfl
       rw [List.flatMap_cons, ih, hl, List.flatMap_cons, List.filter_append]; rfl
 
-/-- **partition_invariance** (with intermediate nodes). As `partition_invariance`, but the
+/-- **partition_invariance**, the part that holds (with intermediate nodes). As `partition_invariance_partial`, but the
 leaves split their groups by `hash(tags) % r` over `r ≥ 1` intermediates (`BuildResultSet`), every
 intermediate `j` handles the shares of all nodes in its OWN order `sched j` (any permutation of
 the nodes) with the same `MetricContext` and sends `makeTaskResponse`; the root handles the `r`
 intermediate responses in ANY order `τ`. The root's aggregator is again the naive aggregate of
 all data — hence equal to the answer without intermediates. -/
-theorem partition_invariance_intermediate (sp0 : List Spec) (cap : Nat) (hs : Simple sp0) (its : List TS)
+theorem partition_invariance_intermediate_partial (sp0 : List Spec) (cap : Nat) (hs : Simple sp0) (its : List TS)
     (h : Tag → Nat) (r : Nat) (hr : 0 < r)
     (ns : List Node) (hOK : ∀ L ∈ leavesOf ns, L.OK sp0) (hne : leavesOf ns ≠ [])
     (hpart : ((leavesOf ns).flatMap (·.its)).Perm its)
@@ -289,7 +289,7 @@ theorem failure_is_error (v : Variant) (c : Ctx) (r : Resp) (rs : List Resp) (hr
     exact ih _ ⟨handle_err_isSome v c1 x h0.1, handle_done_mono v c1 x h0.2⟩
 
 /-- **a node that holds no matching data never turns a non-empty answer into an error or an
-empty answer**: take a schedule `ns` as in `partition_invariance` and add any number of nodes
+empty answer**: take a schedule `ns` as in `partition_invariance_partial` and add any number of nodes
 that answer not-found and of leaves that know the metric but have no series for the query
 (`its = []`), at ANY positions (`ns'` is any permutation of `ns ++ extra`): the root still
 completes without error with the naive aggregate of all data. -/
@@ -320,7 +320,7 @@ theorem empty_node_harmless (sp0 : List Spec) (cap : Nat) (hs : Simple sp0) (its
   have hp' : ((leavesOf ns').flatMap (·.its)).Perm its := by
     refine (hl.flatMap_right _).trans ?_
     rw [List.flatMap_append, hzero, List.append_nil]; exact hpart
-  obtain ⟨h1, h2, -, h4⟩ := partition_invariance sp0 cap hs its ns' hOK' hne' hp'
+  obtain ⟨h1, h2, -, h4⟩ := partition_invariance_partial sp0 cap hs its ns' hOK' hne' hp'
   exact ⟨h1, h2, h4⟩
 
 /-! ## 4. the answer is a function of the data -/
@@ -370,7 +370,7 @@ theorem rows_of_naive (sp0 : List Spec) (cap : Nat) (its : List TS) (A B : Agg)
   rw [this]
 
 /-- **layout independence of the outcome**: two layouts + delivery schedules of the same data
-(under the hypotheses of `partition_invariance`) give the same `WaitResponse` outcome for every
+(under the hypotheses of `partition_invariance_partial`) give the same `WaitResponse` outcome for every
 select list, order-by, limit (for the same iteration order of the group map; see section 5 for
 why that order does not matter without ties). -/
 theorem layout_independence (sp0 : List Spec) (cap : Nat) (hs : Simple sp0) (its : List TS)
@@ -382,8 +382,8 @@ theorem layout_independence (sp0 : List Spec) (cap : Nat) (hs : Simple sp0) (its
     (items : List SelItem) (ords : List OrdItem) (limit : Nat) (order : List Tag) :
     ((Ctx.new ns1.length).handleAll .code (ns1.map (Node.resp cap))).outcome items ords limit order =
     ((Ctx.new ns2.length).handleAll .code (ns2.map (Node.resp cap))).outcome items ords limit order := by
-  obtain ⟨d1, e1, c1, A1, a1, n1⟩ := partition_invariance sp0 cap hs its ns1 hOK1 hne1 hp1
-  obtain ⟨d2, e2, c2, A2, a2, n2⟩ := partition_invariance sp0 cap hs its ns2 hOK2 hne2 hp2
+  obtain ⟨d1, e1, c1, A1, a1, n1⟩ := partition_invariance_partial sp0 cap hs its ns1 hOK1 hne1 hp1
+  obtain ⟨d2, e2, c2, A2, a2, n2⟩ := partition_invariance_partial sp0 cap hs its ns2 hOK2 hne2 hp2
   unfold Ctx.outcome
   simp only [d1, d2, e1, e2, a1, a2, c1, c2, Bool.not_true, Bool.false_eq_true, if_false]
   rw [rows_of_naive sp0 cap its A1 A2 n1 n2]
@@ -579,7 +579,118 @@ theorem full_statement_false : ¬ FullStatement .code := by
 
 end Neg
 
-/-! ## 7. ties to the regenerated facts (`lvh extract` re-reads /repo's source on every run) -/
+/-! ## 7. routing of written rows -/
+
+/-- the broker's shard iterator hands every row out exactly once, in the group of the shard the
+jump hash names — for EVERY hash function with values `< n` (the jump consistent hash is a
+parameter; `partition_invariance_partial` holds for every placement, in particular this one) -/
+theorem route_partition (jump : Nat → Nat) (n : Nat) (rows : List (Nat × Nat))
+    (hj : ∀ r ∈ rows, jump r.2 < n) :
+    (∀ r ∈ rows, ∃ g ∈ routeGroups jump n rows, g.1 = jump r.2 ∧ r.1 ∈ g.2) ∧
+    (∀ g ∈ routeGroups jump n rows, g.1 < n ∧ ∀ id ∈ g.2, ∃ r ∈ rows, r.1 = id ∧ jump r.2 = g.1) ∧
+    ((routeGroups jump n rows).map Prod.fst).Nodup := by
+  refine ⟨?_, ?_, ?_⟩
+  · intro r hr
+    refine ⟨(jump r.2, rows.filterMap (fun x => if jump x.2 = jump r.2 then some x.1 else none)), ?_, rfl, ?_⟩
+    · unfold routeGroups
+      refine List.mem_filterMap.mpr ⟨jump r.2, List.mem_range.mpr (hj r hr), ?_⟩
+      have : (rows.filterMap (fun x => if jump x.2 = jump r.2 then some x.1 else none)).isEmpty = false := by
+        have hm : r.1 ∈ rows.filterMap (fun x => if jump x.2 = jump r.2 then some x.1 else none) :=
+          List.mem_filterMap.mpr ⟨r, hr, by simp⟩
+        cases hl : rows.filterMap (fun x => if jump x.2 = jump r.2 then some x.1 else none) with
+        | nil => rw [hl] at hm; cases hm
+        | cons _ _ => rfl
+      simp only [this, Bool.false_eq_true, if_false]
+    · exact List.mem_filterMap.mpr ⟨r, hr, by simp⟩
+  · intro g hg
+    unfold routeGroups at hg
+    obtain ⟨s, hs, hsg⟩ := List.mem_filterMap.mp hg
+    simp only at hsg
+    split at hsg
+    · cases hsg
+    · cases hsg
+      refine ⟨List.mem_range.mp hs, ?_⟩
+      intro id hid
+      obtain ⟨r, hr, hrid⟩ := List.mem_filterMap.mp hid
+      split at hrid
+      · rename_i hjs
+        cases hrid
+        exact ⟨r, hr, rfl, hjs⟩
+      · cases hrid
+  · unfold routeGroups
+    rw [List.map_filterMap]
+    refine List.Nodup.filterMap ?_ List.nodup_range
+    intro a b c hac hbc
+    simp only [Option.mem_def] at hac hbc
+    split at hac
+    · simp at hac
+    · split at hbc
+      · simp at hbc
+      · simp at hac hbc; rw [hac, hbc]
+
+/-! ## non-vacuity: the hypotheses of the partial theorems hold for a non-trivial layout -/
+
+namespace Example
+
+def spSum : Spec := { name := 0, ftype := 1, funcs := [1] }
+def spMax : Spec := { name := 1, ftype := 3, funcs := [3] }
+/-- reference specs: f0 a sum field, f1 a max field -/
+def sp0 : List Spec := [spSum, spMax]
+
+def tsA : TS := { tags := 0, fields := [{ name := 0, ftype := 1, prims := [{ kind := 1, pts := [(1, 5)] }] }] }
+def tsB : TS :=
+  { tags := 0, fields := [{ name := 0, ftype := 1, prims := [{ kind := 1, pts := [(1, 7)] }] },
+                          { name := 1, ftype := 3, prims := [{ kind := 4, pts := [(2, 3)] }] }] }
+/-- two leaves that list their specs in different (node-local field id) orders, and a node that
+never saw the metric between them -/
+def leafA : LeafIn := { specs := [spSum, spMax], its := [tsA] }
+def leafB : LeafIn := { specs := [spMax, spSum], its := [tsB] }
+def nodes : List Node := [.leaf leafB, .absent, .leaf leafA]
+
+theorem view_sp0 (f : Nat) : specView sp0 f =
+    if f = 0 then some (1, [Kind.sum]) else if f = 1 then some (3, [Kind.max]) else none := by
+  match f with
+  | 0 => decide
+  | 1 => decide
+  | n + 2 => simp [specView, sp0, spSum, spMax]
+
+theorem view_rev (f : Nat) : specView [spMax, spSum] f = specView sp0 f := by
+  match f with
+  | 0 => decide
+  | 1 => decide
+  | n + 2 => simp [specView, sp0, spSum, spMax]
+
+theorem simple_sp0 : Simple sp0 := by
+  intro f ks h
+  rw [kindsOf_eq_view, view_sp0] at h
+  split at h
+  · cases h; exact ⟨.sum, rfl, rfl⟩
+  · split at h
+    · cases h; exact ⟨.max, rfl, rfl⟩
+    · cases h
+
+theorem okA : leafA.OK sp0 := ⟨SpecEquiv.refl _, by decide, rfl⟩
+theorem okB : leafB.OK sp0 := ⟨view_rev, by decide, rfl⟩
+
+/-- the partial theorem applies and pins the root's answer: f0 at slot 1 is 5 + 7 -/
+example :
+    ∃ A, ((Ctx.new 3).handleAll .code (nodes.map (Node.resp 4))).agg = some A ∧
+      A.cells 0 0 .sum 1 = some 12 ∧ A.cells 0 1 .max 2 = some 3 := by
+  obtain ⟨-, -, -, A, hA, hn⟩ := partition_invariance_partial sp0 4 simple_sp0 [tsB, tsA] nodes
+    (by intro L hL
+        simp only [nodes, leavesOf, List.filterMap_cons, List.filterMap_nil, List.mem_cons,
+          List.not_mem_nil, or_false] at hL
+        rcases hL with rfl | rfl
+        · exact okB
+        · exact okA)
+    (by decide) (List.Perm.refl _)
+  refine ⟨A, hA, ?_, ?_⟩
+  · rw [hn.cells_eq]; decide
+  · rw [hn.cells_eq]; decide
+
+end Example
+
+/-! ## 8. ties to the regenerated facts (`lvh extract` re-reads /repo's source on every run) -/
 
 open LinVerif.Generated.C12 in
 /-- the variant of `handleResponse` / `fieldAggregator.Aggregate` the source currently has is the
